@@ -310,6 +310,14 @@ Qed.
 Lemma first_lt : forall b r, drun_ok b r = true -> wd_val (dr_first r) < b.
 Proof. intros b r H. unfold drun_ok, drun_digits in H. cbn [forallb] in H. lia. Qed.
 
+Lemma shape_fr : forall p (f r : list N) tail,
+  (p :: f ++ [40] ++ r ++ [41]) ++ tail = p :: f ++ 40 :: r ++ 41 :: tail.
+Proof. intros. cbn [app]. rewrite <- app_assoc. cbn [app]. rewrite <- app_assoc. reflexivity. Qed.
+
+Lemma shape_r : forall p (r : list N) tail,
+  (p :: [40] ++ r ++ [41]) ++ tail = p :: 40 :: r ++ 41 :: tail.
+Proof. intros. cbn [app]. rewrite <- app_assoc. reflexivity. Qed.
+
 Lemma pbn_frac_spec : forall b sep l iv rest, 2 <= b <= 36 -> body_ok b l = true ->
   ok_follow rest = true ->
   exists v,
@@ -336,8 +344,7 @@ Proof.
   - (* .f(r) *)
     apply andb_prop in Hfr as [Hff Hrr].
     eexists. split.
-    + cbn [app]. unfold pbn_frac. rewrite N.eqb_refl.
-      rewrite <- !app_assoc. cbn [app].
+    + rewrite shape_fr. unfold pbn_frac. rewrite N.eqb_refl.
       rewrite starts_with_drun_40 by (pose proof (first_lt b f Hff); lia).
       rewrite parse_integer_drun; [|lia|assumption|apply stop_paren].
       cbn [lbind]. rewrite recurring_spec by assumption. cbn [lbind fst snd]. reflexivity.
@@ -351,8 +358,7 @@ Proof.
     + ring.
   - (* .(r) *)
     eexists. split.
-    + cbn [app]. unfold pbn_frac. rewrite N.eqb_refl.
-      rewrite <- !app_assoc. cbn [app].
+    + rewrite shape_r. unfold pbn_frac. rewrite N.eqb_refl.
       replace (starts_with 40 (40 :: show_drun sep r ++ 41 :: tail)) with true by reflexivity.
       cbn [lbind]. rewrite recurring_spec by assumption. cbn [lbind fst snd]. reflexivity.
     + rewrite N.pow_0_r, N.mul_1_r. change (qN 0 / qN 1)%Q with (0 / 1)%Q. field.
@@ -465,4 +471,154 @@ Proof.
   rewrite Hsup, andb_false_r.
   exists v2. split; [reflexivity|].
   rewrite Hv2, Hv1. unfold body_value. reflexivity.
+Qed.
+
+(* ------------------------------------------------------------------ *)
+(* base prefixes *)
+
+Lemma zero_prefixes : forall sep tail,
+  parse_base_prefix sep (prefix_text BBin ++ tail) = Some (BBin, tail) /\
+  parse_base_prefix sep (prefix_text BOct ++ tail) = Some (BOct, tail) /\
+  parse_base_prefix sep (prefix_text BHex ++ tail) = Some (BHex, tail).
+Proof. intros. repeat split; reflexivity. Qed.
+
+Lemma custom_prefix : forall b sep tail, 2 <= b <= 36 ->
+  parse_base_prefix sep (prefix_text (BCustom b) ++ tail) = Some (BCustom b, tail).
+Proof.
+  intros b sep tail Hb.
+  assert (Hin : In b (Nseq 2 35)) by (apply Nseq_In; lia).
+  vm_compute in Hin.
+  repeat (destruct Hin as [<-|Hin]; [destruct sep; reflexivity|]).
+  contradiction.
+Qed.
+
+(* no prefix: a base-10 literal is never mistaken for a base prefix *)
+Lemma pint_loop_noallow : forall sep more acc tail,
+  stop_ok 10 sep tail = true ->
+  forallb (fun d => d <? 10) (map (fun p => wd_val (snd p)) more) = true ->
+  (exists e, pint_loop false 10 sep custom_base_step (more_text sep more ++ tail) acc = LErr e) \/
+  (exists cb, pint_loop false 10 sep custom_base_step (more_text sep more ++ tail) acc = LOk (cb, tail)).
+Proof.
+  intros sep more. induction more as [|[w d] more IH]; intros acc tail Hstop Hds.
+  - right. exists acc. cbn [more_text flat_map app]. destruct tail as [|c t]; [reflexivity|].
+    cbn [stop_ok] in Hstop. apply andb_prop in Hstop as [Hs Hd]. cbn [pint_loop].
+    destruct (is_digit_sep sep c); [discriminate|]. destruct (to_digit 10 c); [discriminate|reflexivity].
+  - cbn [map forallb snd] in Hds. apply andb_prop in Hds as [Hd Hds].
+    unfold more_text. cbn [flat_map fst snd]. rewrite <- !app_assoc. cbn [app]. fold (more_text sep more).
+    destruct w; cbn [wsep_text app].
+    + cbn [pint_loop]. rewrite wdigit_not_sep by lia. rewrite wdigit_to_digit by lia.
+      destruct (custom_base_step acc (wd_val d)) as [a'|e]; cbn [lbind]; [apply IH; assumption|left; eexists; reflexivity].
+    + left. cbn [pint_loop]. replace (is_digit_sep sep 95) with true by reflexivity. cbn [negb]. eexists; reflexivity.
+    + left. cbn [pint_loop].
+      replace (is_digit_sep sep (thousands_char sep)) with true by (unfold is_digit_sep; rewrite N.eqb_refl; lia).
+      cbn [negb]. eexists; reflexivity.
+Qed.
+
+Lemma after_int_not_start : forall sep l rest c, ok_follow rest = true ->
+  c <> 69 -> c <> 101 -> c <> 46 -> c <> 44 ->
+  (c = 40 \/ c = 46 \/ c = 44 \/ c = 95 \/ c = 35 \/ exists v, char_digit_value c = Some v) ->
+  starts_with c (show_frac sep (l_frac l) ++ show_exp sep (l_exp l) ++ rest) = false.
+Proof.
+  intros sep l rest c Hf H1 H2 H3 H4 Hc.
+  destruct (l_frac l) as [|f [r|]|r]; cbn [show_frac app];
+    try (cbn [starts_with]; destruct sep; cbn [decimal_char]; lia).
+  apply tail_not_start; assumption.
+Qed.
+
+Lemma more_head_not : forall sep more tail c,
+  forallb (fun d => d <? 10) (map (fun p => wd_val (snd p)) more) = true ->
+  starts_with c tail = false -> 58 <= c -> c <> 95 ->
+  starts_with c (more_text sep more ++ tail) = false.
+Proof.
+  intros sep [|[w d] more] tail c Hds Ht Hc1 Hc2; [assumption|].
+  cbn [map forallb snd] in Hds. apply andb_prop in Hds as [Hd _].
+  unfold more_text. cbn [flat_map fst snd]. rewrite <- !app_assoc.
+  assert (Hch : wdigit_char d = 48 + wd_val d).
+  { unfold wdigit_char. replace (wd_val d <? 10) with true by lia. reflexivity. }
+  destruct w; cbn [wsep_text app starts_with]; try rewrite Hch; try lia.
+  destruct sep; cbn [thousands_char]; lia.
+Qed.
+
+Lemma noprefix10 : forall sep l rest, l_base l = BPlain 10 -> body_ok 10 l = true ->
+  ok_follow rest = true ->
+  parse_base_prefix sep (show_body sep l ++ rest) = None.
+Proof.
+  intros sep l rest Hbase Hok Hf.
+  assert (Hb : 2 <= 10 <= 36) by lia.
+  pose proof (stop_after_int 10 sep l rest Hb Hok Hf) as Hstop.
+  unfold show_body. rewrite <- !app_assoc.
+  remember (show_frac sep (l_frac l) ++ show_exp sep (l_exp l) ++ rest) as tail eqn:Ht.
+  assert (Hx : forall c, c = 120 \/ c = 111 \/ c = 98 \/ c = 35 -> starts_with c tail = false).
+  { intros c Hc. rewrite Ht. apply after_int_not_start; try assumption; try lia.
+    destruct Hc as [-> | [-> | [-> | ->]]].
+    - right; right; right; right; right. exists 33. reflexivity.
+    - right; right; right; right; right. exists 24. reflexivity.
+    - right; right; right; right; right. exists 11. reflexivity.
+    - right; right; right; right; left. reflexivity. }
+  unfold body_ok in Hok.
+  destruct (l_int l) as [i|] eqn:Ei.
+  - apply andb_prop in Hok as [Hok _]. apply andb_prop in Hok as [Hi _].
+    pose proof (first_lt 10 i Hi) as Hfirst.
+    assert (Hmore : forallb (fun d => d <? 10) (map (fun p => wd_val (snd p)) (dr_more i)) = true).
+    { unfold drun_ok, drun_digits in Hi. cbn [forallb] in Hi. apply andb_prop in Hi as [_ Hi]. assumption. }
+    rewrite show_drun_eq. cbn [app].
+    assert (Hch : wdigit_char (dr_first i) = 48 + wd_val (dr_first i)).
+    { unfold wdigit_char. replace (wd_val (dr_first i) <? 10) with true by lia. reflexivity. }
+    unfold parse_base_prefix. cbn [starts_with tl].
+    destruct (wdigit_char (dr_first i) =? 48) eqn:E0.
+    + (* leading zero: the next character is not x, o, b *)
+      destruct (more_text sep (dr_more i) ++ tail) as [|c2 r2] eqn:Em; [reflexivity|].
+      assert (H1 : starts_with 120 (c2 :: r2) = false) by (rewrite <- Em; apply more_head_not; auto; lia).
+      assert (H2 : starts_with 111 (c2 :: r2) = false) by (rewrite <- Em; apply more_head_not; auto; lia).
+      assert (H3 : starts_with 98 (c2 :: r2) = false) by (rewrite <- Em; apply more_head_not; auto; lia).
+      cbn [starts_with] in H1, H2, H3. rewrite H1, H2, H3. reflexivity.
+    + cbn [parse_integer]. rewrite wdigit_to_digit by lia.
+      destruct (custom_base_step 0 (wd_val (dr_first i))) as [a'|e]; cbn [lbind]; [|reflexivity].
+      destruct (pint_loop_noallow sep (dr_more i) a' tail Hstop Hmore) as [(e & He)|(cb & Hcb)]; [rewrite He; reflexivity|rewrite Hcb].
+      destruct (cb <? 2); [reflexivity|]. rewrite Hx by auto. reflexivity.
+  - (* the literal starts with the decimal point *)
+    cbn [app].
+    destruct (l_frac l) as [|f [r|]|r]; try discriminate; rewrite Ht; cbn [show_frac app];
+      unfold parse_base_prefix; destruct sep; reflexivity.
+Qed.
+
+(* ------------------------------------------------------------------ *)
+(* the literal theorem *)
+
+Lemma lit_ok_body : forall l, lit_ok l = true ->
+  2 <= base_val (l_base l) <= 36 /\ body_ok (base_val (l_base l)) l = true.
+Proof.
+  intros l H. unfold lit_ok in H. rewrite andb_true_r in H.
+  apply andb_prop in H as [H He]. apply andb_prop in H as [H Hfr]. apply andb_prop in H as [Hb Hi].
+  split.
+  - destruct (l_base l); cbn [base_ok base_val] in *; lia.
+  - unfold body_ok. rewrite Hi, Hfr, He. reflexivity.
+Qed.
+
+Theorem lex_lit : forall sep l rest, lit_ok l = true -> ok_follow rest = true ->
+  exists v, parse_number sep (show_lit sep l ++ rest) = LOk (v, l_base l, rest) /\
+            (v == lit_value l)%Q.
+Proof.
+  intros sep l rest Hok Hf.
+  destruct (lit_ok_body l Hok) as (Hb & Hbody).
+  destruct (lex_body (base_val (l_base l)) sep l rest Hb Hbody Hf) as (v & Hp & Hv).
+  exists v. split; [|exact Hv].
+  unfold parse_number, show_lit.
+  change ((match l_int l with Some i => show_drun sep i | None => [] end) ++
+          show_frac sep (l_frac l) ++ show_exp sep (l_exp l)) with (show_body sep l).
+  rewrite <- app_assoc.
+  assert (Hpre : parse_base_prefix sep (prefix_text (l_base l) ++ show_body sep l ++ rest) =
+                 match l_base l with BPlain _ => None | k => Some (k, show_body sep l ++ rest) end).
+  { destruct (l_base l) as [| | |b|b] eqn:Eb.
+    - apply zero_prefixes.
+    - apply zero_prefixes.
+    - apply zero_prefixes.
+    - apply custom_prefix. cbn [base_val] in Hb. assumption.
+    - unfold lit_ok in Hok. rewrite Eb in Hok. cbn [base_ok] in Hok.
+      assert (b = 10) by lia. subst b. cbn [prefix_text app].
+      apply noprefix10; [assumption|assumption|assumption]. }
+  rewrite Hpre.
+  destruct (l_base l) as [| | |b|b] eqn:Eb; cbn [base_val] in *; try (rewrite Hp; reflexivity).
+  unfold lit_ok in Hok. rewrite Eb in Hok. cbn [base_ok] in Hok. assert (b = 10) by lia. subst b.
+  cbn [prefix_text app]. cbn [base_val]. rewrite Hp. reflexivity.
 Qed.
